@@ -148,6 +148,16 @@ func c18Case(w *core.W, j int) {
 			}
 		}
 		kind = "compressible"
+		if j%24 == 7 {
+			// so many records under one long owner that the message does not fit 64 KiB until it is compressed
+			// (this kind is always packed with compression): a few KiB on the wire
+			mm = &model.Msg{ID: uint16(r.IntN(65536)), Bits: 0x8400, Q: []model.Question{{Name: long.Clone(), Type: 1, Class: 1}}}
+			for i := 0; i < 330+r.IntN(150); i++ {
+				mm.An = append(mm.An, &model.Rec{Owner: long.Clone(), Type: 1, Class: 1, TTL: 60, L: model.Layouts[1], Vals: []any{[]byte{10, byte(j), byte(i >> 8), byte(i)}}})
+			}
+			kind = "compressible-over-64k-uncompressed"
+			w.Count("messages_over_64k_until_compressed", 1)
+		}
 	case 2: // 256 or more additional records
 		mm = &model.Msg{ID: 7, Bits: 0x8000, Q: []model.Question{{Name: model.Name{[]byte("many")}, Type: 1, Class: 1}}}
 		n := []int{254, 255, 256, 257, 300, 512}[r.IntN(6)]
@@ -162,7 +172,7 @@ func c18Case(w *core.W, j int) {
 		mm = genMsg(g, c01Layouts(), 1+r.IntN(6))
 		kind = "alltypes"
 	}
-	if len(mm.Wire()) > 60000 {
+	if len(mm.Wire()) > 60000 && kind != "compressible-over-64k-uncompressed" {
 		return
 	}
 	m, err := buildMsgAny(mm)
@@ -445,7 +455,16 @@ func c18Case(w *core.W, j int) {
 		if verr, ok := verify(s2, key, o2); ok && verr == nil {
 			w.Violation(keyf("accepts-outside-window"), fmt.Sprintf("a signature valid from %d to %d verifies at %d", win[0], win[1], now), wit)
 		}
-		w.Count("window_checks", 1)
+		// the window is the one in the signed octets, whatever the SIG value handed to Verify says: the
+		// value that signed the timely message 'out' (or one reused for other messages since) verifies
+		// nothing outside its window, and a value with other times does not hide that 'out' is timely
+		if verr, ok := verify(sig, key, o2); ok && verr == nil {
+			w.Violation(keyf("accepts-outside-window/other-sig-value"), fmt.Sprintf("a message signed for %d..%d verifies at %d when Verify is called on a SIG value whose fields say %d..%d", win[0], win[1], now, sig.Inception, sig.Expiration), wit)
+		}
+		if verr, ok := verify(s2, key, out); ok && verr != nil {
+			w.Violation(keyf("own-signature-rejected/other-sig-value"), fmt.Sprintf("a timely, untampered message is rejected (%v) when Verify is called on a SIG value whose own fields say %d..%d", verr, s2.Inception, s2.Expiration), wit)
+		}
+		w.Count("window_checks", 3)
 	}
 	// (g2) messages whose signed form is exactly 65534, 65535 (the largest DNS message) and 65536 octets
 	if j%7 == 0 {
